@@ -55,7 +55,7 @@ REGISTRY = {
         "assumptions": ["level names are strings"],
     },
     "C05": _design_prop(OD2.oracle_c05),
-    "C18": _design_prop(OD2.oracle_c18),
+    "C18": dict(_design_prop(OD2.oracle_c18, quick=50), correspondence=[i7_layout.corr_sharing]),
     "C19": _design_prop(OD2.oracle_c19),
     "C22": _design_prop(OD2.oracle_c22),
     "C14": dict(_design_prop(OD2.oracle_c14, quick=40), correspondence=[i7_layout.corr_layout]),
@@ -75,7 +75,7 @@ REGISTRY = {
     "C08": _design_prop(OD.oracle_c08),
     "C09": _design_prop(OD.oracle_c09),
     "C16": _design_prop(OD.oracle_c16),
-    "C17": _design_prop(OD.oracle_c17),
+    "C17": dict(_design_prop(OD.oracle_c17, quick=50), correspondence=[i7_layout.corr_conforms]),
     "C27": {
         "correspondence": [i4_text.corr_text, i4_text.corr_sample_lines],
         "oracle": [i4_text.oracle_c27],
